@@ -38,6 +38,11 @@ def run(ctx):
     hjobs, nh = heading_jobs(ctx, rng)
     jobs += hjobs
     ndocs += nh
+    # a deck with pictures that carry alternative text (the join law also holds with include_image_captions=True)
+    from ..docrun import rich_doc
+    for s_ in (0, 1, 2):
+        jobs.append({"doc": rich_doc("pptx", ctx.seed + s_), "fmt": "pptx"})
+    ndocs += 3
     ctx.log(f"{ndocs} documents, {len(jobs)} (document, format) extractions")
     traces = run_suite(ctx, jobs, _events, "units")
     for t in traces:
